@@ -151,9 +151,9 @@ class RawActor:
         self.rx = None
         self.opened = False
 
-    async def open(self, timeout=30):
+    async def open(self, timeout=30, path=""):
         import websockets
-        self.ws = await asyncio.wait_for(websockets.connect("ws://simhost:8001", max_size=None), timeout)
+        self.ws = await asyncio.wait_for(websockets.connect("ws://simhost:8001" + path, max_size=None), timeout)
         self.opened = True
         await self.ws.send(pickle.dumps({"type": "init", "sid": self.sid}))
         self.rx = asyncio.ensure_future(self._rx())
